@@ -11,6 +11,7 @@ CONSTANTS
   LimitN = 20
   HasKill = TRUE
   AllowKill = FALSE
+  AllowFds = FALSE
   AllowFlush = TRUE
   AtomicPoll = TRUE
 INVARIANTS Emit PollOK TokensOK InterestsOK
